@@ -77,3 +77,11 @@ META["C18"] = dict(
     level_text="Exploration: concurrent encode/decode jobs through every pooled path (auto-released writers, pooled writers that fail midway or are abandoned, owned writers failing then freed) must produce exactly the bytes they produce alone and read back correctly; the thorough tier rebuilds with -race and treats any report with a frame inside the module as a violation.",
     level_note="Interleavings are sampled by the Go scheduler. mpx/rpc pools are covered by the net part of this check when built.",
 )
+
+META["C03"] = dict(
+    engine="net",
+    design_ref="DESIGN.md 3/C03",
+    technique="property-based testing over real mpx server/clients on loopback: rapid-generated configurations and per-channel scripts, self-describing PRF payloads, prefix/complete-sequence oracle per channel and direction",
+    level_text="Exploration: generated configurations (windows 1 byte..16 MiB, write queue and buffers down to 16 bytes, compression, 1..3 connections, GOMAXPROCS 1/2/16) with up to 24 concurrent channels whose scripts cover both directions at once, payloads on opening and closing frames, closes by SendAndClose/Free/handler return and early ends. Every received message must be exactly the i-th message sent on that channel and direction; the sequence must be complete whenever the receiver read to the end status without ending the channel itself and the sender had finished; no connection may close and no library panic may be logged.",
+    level_note="Interleavings are sampled by the Go scheduler plus generated yields and GOMAXPROCS, not enumerated. Completion uses a 60 s bound per case.",
+)
